@@ -3,4 +3,4 @@
 Require Import ExtrOcamlBasic.
 From ACH Require Import Server ServerLib ServerShare.
 (* List.length only so that the shared conv.ml finds the nat constructors *)
-Extraction "model.ml" sinit sstep snapshot rclass_of target wf_label file_stable all_stable sread_stored lookup List.length.
+Extraction "model.ml" sinit sstep snapshot rclass_of target wf_label wf_flat_result file_stable all_stable sread_stored lookup List.length.
